@@ -980,9 +980,27 @@ theorem transform_replace_below_set {X : SetOracle} (hX : IterPerm X) {σ : Sche
     [] q0' ci n hci hn hq hns hx (by simpa using hrep) (by simpa using hid)
   simp only [transform, transformWith, h []]
 
+/-- **…with the callback the correspondence runs** (`atPathCb`, the harness rule
+`(at q0 (ret x))`): when no two members of the set are the same value — so that their
+steps, the members themselves, tell them apart — both hypotheses about the callback
+hold, and the conclusion of `transform_replace_below_set` holds outright. -/
+theorem transform_replace_below_set_at_path {X : SetOracle} (hX : IterPerm X) {σ : Sched} (hσ : SchedOk σ)
+    (v x n : Value) (e : Ty) (i : Nat) (r : Pos) (q0' : Path) (ci : PathStep × Value)
+    (hg : Walk.Good X v) (hty : v.ty = .set e) (hnd : ((kids X v).map (·.1)).Nodup)
+    (hci : (kids X v)[i]? = some ci)
+    (hn : nodeAt X ci.2 r = some n) (hq : pathAt X ci.2 r = some q0') (hns : noSetAt X ci.2 r = true)
+    (hx : x.ty = n.ty) :
+    (transform X σ (atPathCb (ci.1 :: q0') x) v).2 =
+      (setVal X (((kids X v).map (·.2)).set i (replaceAt X ci.2 r x))).map (·.withMarks v.marks) := by
+  obtain ⟨h1, h2⟩ := atPathCb_hyps_below_set hX v x hg.shaped hnd i r q0' ci hci hq hns
+  exact transform_replace_below_set hX hσ _ v x n e i r q0' ci hg hty hci hn hq hns hx h1 h2
+
 /-- a marked set of two strings; the callback replaces the member `"p"` -/
 def setSample : Value := ⟨.set .string, .marked ["ms"] (.sset [5, 7] [.s "p", .s "q"])⟩
 def setCb : TCb := atPathCb [.index ⟨.string, .s "p"⟩] ⟨.string, .marked ["mx"] (.s "r")⟩
+
+example : ((kids X1 setSample).map (fun c : PathStep × Value => c.1)).Nodup := by decide
+
 
 example : Walk.Good X1 setSample ∧ (kids X1 setSample)[0]? = some (.index ⟨.string, .s "p"⟩, ⟨.string, .s "p"⟩) ∧
     nodeAt X1 ⟨.string, .s "p"⟩ [] = some ⟨.string, .s "p"⟩ ∧ pathAt X1 ⟨.string, .s "p"⟩ [] = some [] :=
